@@ -216,19 +216,18 @@ def stream_rules_text(ctx: Ctx) -> Stream:
 
 
 def rt_key(rules: Any) -> str:
-	terms = string_terminals(rules)
-	if any(s.endswith('\\') for s in terms):
-		return 'text-rt:terminal-ends-with-backslash'
 	if rules_have_bare_group(rules):
 		return 'text-rt:bare-group-loses-parentheses'
+	if any(s.endswith('\\') for s in string_terminals(rules)):
+		return 'text-rt:terminal-ends-with-backslash'
 	return 'text-rt:other'
 
 
 def search_round_trip(ctx: Ctx) -> SearchResult:
 	rng = ctx.sub_rng('round-trip')
-	# a string terminal that ends in a backslash cannot be followed by another string in ANY grammar text (the lexer reads `\"` as an
-	# escaped quote — C13's escape-parity finding), so such rule sets are not expressible in the meta-grammar and are not generated here
-	gen = gramlib.RuleGen(rng, strings=[s for s in gramlib.STRING_TERMINALS if not s[:-1].endswith('\\')])
+	# string terminals ending in a backslash (`"\\\\"`) are included: the lexer decides escaping of the closing quote by the parity of the
+	# backslash run (repaired under C13); a regression there shows up here under its own key
+	gen = gramlib.RuleGen(rng)
 	world = GramWorld()
 	res = SearchResult('Rules.from_ast(parse(lex(g.pretty()))) == g on generated rule sets (real code only)')
 	hist: Counter[str] = Counter()
@@ -436,6 +435,7 @@ def run(ctx: Ctx) -> int:
 		assumptions=[
 			'symbol names, terminals and texts are ASCII (Pattern.make\'s \\w is modelled for ASCII)',
 			'generated terminals are single tokens of the meta-grammar (strings without a double quote, regexps not starting with a slash)',
+			'gram_rules.py is compared after removing its hand-written docstring and the extra newline at the end of the file',
 		],
 		trusted=['the gram tokenizer: the model engine is fed the REAL token lists (Generated/RulesData.lean); C13 covers the lexer',
 			'Python literal evaluation of the rendered module text (\\\\ → \\, \\\' → \') when relating py_rules.py\'s text to its evaluated literal',
